@@ -29,6 +29,7 @@ RULE = ("(forms) one matrix (float/int/bool, incl. tall, wide, 1x1, all-zero "
         " canonical hash")
 BUDGET = {"quick": {"shards": 16, "examples": 250},
           "thorough": {"shards": 16, "examples": 5000}}
+FUZZ_SECONDS = 120   # thorough tier: atheris campaign on the same property
 ASSUMPTIONS = ["only row-oriented lists are generated; shape-less forms list "
                "the last corner cell (as an explicit zero if need be)",
                "uc query labels carry exactly one underscore"]
